@@ -6,7 +6,7 @@
 From stdpp Require Import gmap list.
 From Coq Require Import NArith ZArith Lia.
 From VFS Require Import Core.Types Core.Prog Core.Calls Base.MemFS Base.Handles Base.PhysFS Base.Embedded Base.Store
-  Layer.VfsPath Layer.Overlay Proofs.ProgProofs Proofs.MemProofs Proofs.MemCalls Proofs.OvlProofs Proofs.OvlList.
+  Layer.VfsPath Layer.Overlay Proofs.ProgProofs Proofs.MemProofs Proofs.MemCalls Proofs.OvlProofs Proofs.OvlList Proofs.CopyFile.
 
 (** instance number k: base filesystem k, unwrapped *)
 Definition vk (k : nat) : vfs := mkVfs k (fun c => Call (BFs k c) Ret).
@@ -229,3 +229,38 @@ Section Layers.
     eexists. split; [exact H|]. rewrite elem_of_gathered, elem_of_nil. tauto.
   Qed.
 End Layers.
+
+(** ** bytes: opening a path through n layers hands out the FIRST holder's bytes; the only change anywhere is
+    that holder's access time (MemoryFS stamps it) and the new handle *)
+Section LayersOpen.
+  Variables (lg : list (nat * fscall)) (ft : option (nat * nat)).
+  Notation topn := (vk 0, @nil (list N)).
+
+  Lemma open_k (hs : list hstate) (bs : list mstate) (k : nat) (s : mstate) (p : path) f :
+    bs !! k = Some s -> s !! p = Some f -> f_type f = File ->
+    run bhandler (vp_open_file (vk k) p) (nstore hs lg ft bs) =
+    (nstore (hs ++ [HMemReader (f_content f) 0]) lg ft (<[k := <[p := touched f]> s]> bs), Ok (length hs)).
+  Proof.
+    intros Hk Hf Hft. unfold vp_open_file, labelled. cbn [v_impl vk]. rewrite run_bind. cbn [run bhandler].
+    unfold fs_call, nstore. cbn [st_bases]. rewrite list_lookup_fmap, Hk. cbn [fmap option_fmap option_map].
+    unfold mem_fs_call. rewrite ms_open_file. cbn [msec_sem]. rewrite Hf, Hft. cbn [mem_glue fst snd].
+    unfold alloc_handle, set_base. cbn [st_bases st_handles st_log st_fault st_io run map_err].
+    rewrite list_fmap_insert. reflexivity.
+  Qed.
+
+  Theorem open_file_first_holder (hs : list hstate) (s0 : mstate) (ss1 : list mstate) (s : mstate) (ss2 : list mstate) (p : path) f :
+    p <> [] -> s0 !! p = None -> s0 !! whiteout_path topn p = None ->
+    Forall (fun s' => s' !! p = None) ss1 -> s !! p = Some f -> f_type f = File ->
+    run bhandler (ovl_impl topn (lowers 1 (length (ss1 ++ s :: ss2))) (COpenFile p)) (nstore hs lg ft (s0 :: ss1 ++ s :: ss2)) =
+    (nstore (hs ++ [HMemReader (f_content f) 0]) lg ft (s0 :: ss1 ++ <[p := touched f]> s :: ss2), Ok (length hs)).
+  Proof.
+    intros Hp H0 Hm Hnone Hs Hft. cbn [ovl_impl]. unfold bind_res. rewrite run_bind.
+    rewrite (first_holder_serves hs lg ft s0 ss1 s ss2 p Hp H0 Hm Hnone) by eauto. cbn [fst snd].
+    assert (Hk : (s0 :: ss1 ++ s :: ss2) !! (1 + length ss1) = Some s).
+    { cbn [Nat.add]. rewrite lookup_cons. rewrite lookup_app_r by lia. now rewrite Nat.sub_diag. }
+    rewrite (open_k hs _ _ s p f Hk Hs Hft). f_equal. f_equal.
+    change (1 + length ss1) with (S (length ss1)). change (<[S (length ss1) := <[p := touched f]> s]> (s0 :: ss1 ++ s :: ss2))
+      with (s0 :: <[length ss1 := <[p := touched f]> s]> (ss1 ++ s :: ss2)). f_equal.
+    rewrite insert_app_r_alt by lia. rewrite Nat.sub_diag. reflexivity.
+  Qed.
+End LayersOpen.
